@@ -297,25 +297,33 @@ def check_rb(P, results, nbits, nchans, label, budget):
 
 def work(P, item):
     mode, nbits, nf, x, budget = item
+    bud = [budget]
+    deadline = 600
+
+    def stream(h, checker, label, *extra):
+        def on_path(ctx, rec):
+            P.reached += checker(P, [(ctx, rec)], nbits, *extra, label, bud)
+            return "stop" if len(P.cands) >= 2 else None
+        try:
+            explore(h, bound=4, on_path=on_path, deadline_s=deadline, stats=P.stats)
+        except Inconclusive:
+            if not P.cands:
+                raise
     if mode == "readblock":
         from ..stack import build_filreader
         st = build_filreader()
-        res, stt = explore(harness_readblock(st, nbits, x, nf), bound=4)
-        P.stats.add(stt)
-        P.reached += check_rb(P, res, nbits, x, f"read_block[nbits={nbits},nchans={x},files={nf}]", [budget])
+        stream(harness_readblock(st, nbits, x, nf), check_rb, f"read_block[nbits={nbits},nchans={x},files={nf}]", x)
         return
     st = build_fileio()
     if mode == "step":
         for i in range(nf):
             for kind in OPS:
-                res, stt = explore(harness_step(st, nbits, nf, i, kind), bound=4)
-                P.stats.add(stt)
-                P.reached += check_paths(P, res, nbits, f"step[nbits={nbits},files={nf},i={i},{kind}]", [budget])
+                stream(harness_step(st, nbits, nf, i, kind), check_paths, f"step[nbits={nbits},files={nf},i={i},{kind}]")
     else:
         for kinds in itertools.product(OPS, repeat=x):
-            res, stt = explore(harness_hist(st, nbits, nf, kinds, 0), bound=4)
-            P.stats.add(stt)
-            P.reached += check_paths(P, res, nbits, f"hist[nbits={nbits},files={nf},{'+'.join(kinds)}]", [budget])
+            stream(harness_hist(st, nbits, nf, kinds, 0), check_paths, f"hist[nbits={nbits},files={nf},{'+'.join(kinds)}]")
+            if len(P.cands) >= 2:
+                break
 
 
 def run(R):
